@@ -109,6 +109,29 @@ def gen_case(rng, quick):
     case["alphas_as"] = rng.choice(["list", "list", "tuple", "ndarray"])
     if case["method"] == "cutoff" and not relative and rng.random() < 0.3:
         plant_exact_threshold(case, rng)
+    # grids of another dtype (the model sees the same real values): python ints, int64 / int32 arrays
+    # (the only integer relative grid is all zeros), float32 arrays with dyadic entries
+    if not case.get("exact_thrs") and rng.random() < 0.14:
+        kind = rng.choice(["int_list", "int_tuple", "int64", "int32", "float32"])
+        k = rng.randint(1, 5)
+        if kind == "float32":
+            pool = [0.0, 2.0 ** -20, 2.0 ** -10, 0.125, 0.25, 0.5, 0.75] if relative else \
+                [2.0 ** -30, 2.0 ** -20, 2.0 ** -10, 0.125, 0.5, 1.0, 2.0, 16.0, 1024.0]
+            al = rng.sample(pool, min(k, len(pool)))
+        elif relative:
+            al = [0.0] * rng.randint(1, 2)
+        else:
+            al = [float(v) for v in rng.sample([1, 2, 3, 5, 10, 20, 100, 1000], k)]
+        if rng.random() < 0.5:
+            al = sorted(al)
+        case["alphas"] = al
+        case["alphas_as"] = kind
+    # explicit (train, test) iterables: index arrays of other types, numpy-style NEGATIVE indices
+    # (i - n addresses the same row as i); the model always gets the non-negative positions
+    if cv["kind"] == "explicit":
+        cv["idx_as"] = rng.choice(["int64", "int64", "int32", "int16", "list", "negative", "mixed_negative"])
+        cv["pair_as"] = rng.choice(["tuple", "list"])
+        cv["neg"] = [[[rng.random() < 0.5 for _ in part] for part in sp] for sp in cv["splits"]]
     return case
 
 
@@ -151,12 +174,29 @@ def plant_exact_threshold(case, rng):
     return True
 
 
-def _cv_object(spec):
+def _present_indices(idx, n, kind, neg):
+    idx = [int(i) for i in idx]
+    if kind == "negative":
+        idx = [i - n for i in idx]
+    elif kind == "mixed_negative":
+        idx = [i - n if b else i for i, b in zip(idx, neg)]
+    if kind == "list":
+        return idx
+    return np.array(idx, dtype={"int32": np.int32, "int16": np.int16}.get(kind, np.int64))
+
+
+def _cv_object(spec, n=None, present=False):
+    """The cv argument.  present=True (what the implementation gets) applies the case's index
+    presentation to explicit splits; present=False gives the canonical non-negative int64 arrays."""
     from sklearn.model_selection import KFold
     if spec["kind"] == "none":
         return None
     if spec["kind"] == "explicit":
-        return [(np.array(a), np.array(b)) for a, b in spec["splits"]]
+        if not present or "idx_as" not in spec:
+            return [(np.array(a), np.array(b)) for a, b in spec["splits"]]
+        pair = tuple if spec.get("pair_as", "tuple") == "tuple" else list
+        return [pair(_present_indices(part, n, spec["idx_as"], ng) for part, ng in zip(sp, negs))
+                for sp, negs in zip(spec["splits"], spec["neg"])]
     if spec["kind"] == "int":
         return int(spec["n_splits"])
     return KFold(n_splits=spec["n_splits"], shuffle=spec["shuffle"], random_state=spec["random_state"])
@@ -177,6 +217,15 @@ def splits_of(case):
 def _alphas_arg(case):
     al = [float(x) for x in case["alphas"]]
     kind = case.get("alphas_as", "list")
+    if kind in ("int_list", "int_tuple", "int64", "int32"):
+        ints = [int(x) for x in al]
+        assert [float(i) for i in ints] == al
+        return (ints if kind == "int_list" else tuple(ints) if kind == "int_tuple"
+                else np.array(ints, dtype=np.int64 if kind == "int64" else np.int32))
+    if kind == "float32":
+        a32 = np.array(al, dtype=np.float32)
+        assert [float(v) for v in a32] == al
+        return a32
     return tuple(al) if kind == "tuple" else np.array(al) if kind == "ndarray" else al
 
 
@@ -203,7 +252,7 @@ def run_impl(case):
     try:
         kw = dict(alphas=_alphas_arg(case),
                   alpha_type="relative" if case["relative"] else "absolute",
-                  regularization_method=case["method"], cv=_cv_object(spec),
+                  regularization_method=case["method"], cv=_cv_object(spec, n=X.shape[0], present=True),
                   scoring=case["scoring"], random_state=_present_seed(spec) if spec["kind"] == "none" else None,
                   shuffle=spec.get("shuffle", True) if spec["kind"] == "none" else True,
                   n_jobs=case["n_jobs"])
@@ -217,7 +266,7 @@ def run_impl(case):
                              shuffle=False)
             m.fit(Xo, Yo)
             m.predict(Xo)
-            m.set_params(**dict(kw, alphas=np.asarray(kw["alphas"], dtype=float)))
+            m.set_params(**dict(kw, alphas=np.asarray(kw["alphas"])))      # what __init__ stores
         else:
             m = Ridge2FoldCV(**kw)
         m.fit(X, y)
@@ -611,7 +660,7 @@ def run(ctx):
                  skipped=dict(cv_entries=0, selection=0, coef=0, predict=0, near_threshold=0, near_tie=0),
                  compared=dict(cv_entries=0, selection=0, coef=0, predict=0),
                  hint_residual_max=0.0, shapes={}, refit=0, alphas_as={}, split_computed_in_model=0,
-                 xnew_rows={}, seed_presented_as={}, exact_threshold_planted=0, exact_threshold_compared=0,
+                 xnew_rows={}, seed_presented_as={}, explicit_indices_as={}, exact_threshold_planted=0, exact_threshold_compared=0,
                  exact_threshold_selected_full=0)
     for _ in range(ncases):
         c = gen_case(ctx.rng, ctx.quick)
@@ -628,6 +677,8 @@ def run(ctx):
             stats[k][v] = stats[k].get(v, 0) + 1
         stats["y1d"] += c["y1d"]
         stats["refit"] += bool(c.get("refit"))
+        if c["cv"].get("idx_as"):
+            stats["explicit_indices_as"][c["cv"]["idx_as"]] = stats["explicit_indices_as"].get(c["cv"]["idx_as"], 0) + 1
         if c["cv"].get("seed_as"):
             stats["seed_presented_as"][c["cv"]["seed_as"]] = stats["seed_presented_as"].get(c["cv"]["seed_as"], 0) + 1
         stats["exact_threshold_planted"] += bool(c.get("exact_thrs"))
